@@ -33,6 +33,7 @@ package main
 // was not given the full deadline).
 
 import (
+	"bytes"
 	"context"
 	"encoding/json"
 	"fmt"
@@ -158,7 +159,7 @@ type c20Op struct {
 }
 
 type c20Input struct {
-	Kind string `json:"kind"` // script | nested | race
+	Kind string `json:"kind"` // script | nested | race | cancelrace
 	// script, nested
 	Pre  []int   `json:"pre,omitempty"`  // ids ended before NewPool
 	Init []int   `json:"init,omitempty"` // ids passed to NewPool, in order
@@ -169,6 +170,10 @@ type c20Input struct {
 	NEnd   []int   `json:"nend,omitempty"`   // nested end: the ids ended inside the callback, in order
 	WaitMs int     `json:"wait_ms,omitempty"`
 	Ops2   []c20Op `json:"ops2,omitempty"`
+	// cancelrace: Cancels concurrent Cancel() calls (and Adders Adds, one Size reader) on a pool of K
+	// members, the first of them never-ending when Never; K, Adders, Reps, Spin, Seed as for race
+	Cancels int  `json:"cancels,omitempty"`
+	Never   bool `json:"never,omitempty"`
 	// race
 	K      int   `json:"k,omitempty"`      // live initial members
 	Adders int   `json:"adders,omitempty"` // goroutines adding one fresh context each
@@ -189,13 +194,66 @@ func newCtxSet() *ctxSet {
 	return &ctxSet{ctx: map[int]context.Context{}, cancel: map[int]context.CancelFunc{}}
 }
 
+// Ids from neverBase on are contexts that never end and whose Done() is a nil channel:
+// context.Background(), context.TODO(), a value context on top of Background. A script that uses
+// one must Cancel the pool (the model ends every context in its last phase; these cannot be).
+const neverBase = 90
+
+type c20Key struct{}
+
+func isNever(id int) bool { return id >= neverBase }
+
 func (c *ctxSet) get(id int) context.Context {
 	if x, ok := c.ctx[id]; ok {
+		return x
+	}
+	if isNever(id) {
+		var x context.Context
+		switch (id - neverBase) % 3 {
+		case 0:
+			x = context.Background()
+		case 1:
+			x = context.TODO()
+		default:
+			x = context.WithValue(context.Background(), c20Key{}, id)
+		}
+		c.ctx[id], c.cancel[id] = x, func() {}
 		return x
 	}
 	x, cancel := context.WithCancel(context.Background())
 	c.ctx[id], c.cancel[id] = x, cancel
 	return x
+}
+
+// checkNever: never-ending contexts cannot be ended, and need a Cancel somewhere in the case.
+func checkNever(in c20Input, nops []c20Op) {
+	uses, cancels := false, in.Nested == "cancel"
+	for _, id := range in.Init {
+		uses = uses || isNever(id)
+	}
+	for _, id := range in.Pre {
+		if isNever(id) {
+			panic("c20: a never-ending context cannot have ended")
+		}
+	}
+	if in.Kind == "nested" {
+		uses = uses || isNever(in.M)
+	}
+	for _, ops := range [][]c20Op{in.Ops, nops, in.Ops2} {
+		for _, op := range ops {
+			switch {
+			case op.Op == "end" && isNever(op.M):
+				panic("c20: a never-ending context cannot be ended")
+			case op.Op == "add" && isNever(op.M):
+				uses = true
+			case op.Op == "cancel":
+				cancels = true
+			}
+		}
+	}
+	if uses && !cancels {
+		panic("c20: a case with a never-ending context needs a Cancel")
+	}
 }
 
 func (c *ctxSet) end(id int) { c.get(id); c.cancel[id]() }
@@ -249,11 +307,43 @@ func settleNotDone(p *kitctx.Pool, rounds int) bool {
 	return isDone(p)
 }
 
-// goroutinesBack polls until the number of goroutines is back to the baseline.
+// poolGoroutines counts the goroutines that belong to the package under test: their stack has a
+// frame of, or they were created by, github.com/dapr/kit/context, and no frame or creator of the
+// harness (a harness goroutine blocked inside a pool call is a wedged call, not a watcher).
+var stackBuf = make([]byte, 1<<16) // only the generator's goroutine takes dumps
+
+func poolGoroutines() int {
+	var dump []byte
+	for {
+		n := runtime.Stack(stackBuf, true)
+		if n < len(stackBuf) {
+			dump = stackBuf[:n]
+			break
+		}
+		stackBuf = make([]byte, 2*len(stackBuf))
+	}
+	count := 0
+	for len(dump) > 0 {
+		g := dump
+		if i := bytes.Index(dump, []byte("\n\n")); i >= 0 {
+			g, dump = dump[:i], dump[i+2:]
+		} else {
+			dump = nil
+		}
+		if bytes.Contains(g, []byte("github.com/dapr/kit/context.")) && !bytes.Contains(g, []byte("\nmain.")) &&
+			!bytes.Contains(g, []byte("created by main.")) {
+			count++
+		}
+	}
+	return count
+}
+
+// goroutinesBack polls until the number of goroutines of the package under test is back to the
+// baseline.
 func goroutinesBack(base int, d time.Duration) bool {
 	deadline := time.Now().Add(d)
 	for i := 0; ; i++ {
-		if runtime.NumGoroutine() <= base {
+		if poolGoroutines() <= base {
 			return true
 		}
 		if time.Now().After(deadline) {
@@ -338,6 +428,8 @@ type c20Obs struct {
 	Done    bool `json:"done"`
 	Size    int  `json:"size"`
 	Skipped bool `json:"not_observed,omitempty"` // after a Fast operation
+	// the pool was seen done and its goroutine was still there when the liveness deadline expired
+	WatcherLeft bool `json:"goroutine_left,omitempty"`
 }
 
 func (o c20Obs) coq() string {
@@ -417,7 +509,8 @@ type runner struct {
 	cs       *ctxSet
 	ex       *expect
 	p        *kitctx.Pool
-	base     int    // goroutines before the pool existed
+	base     int    // goroutines of the package under test before the pool existed
+	leakSeen bool   // at a look that saw the pool done its goroutine was still there at the deadline
 	wedged   string // a pool call that did not return within the deadline, or panicked
 	panicked bool
 	dropped  bool // a liveness wait failed under the shortened deadline: the case is not recorded
@@ -470,8 +563,31 @@ func (r *runner) observe(rounds int) c20Obs {
 	} else {
 		o.Done = settleNotDone(r.p, rounds)
 	}
+	if r.stopped() {
+		return o
+	}
+	if o.Done { // "the pool's watcher goroutine ends with it" - whatever its members are doing
+		o.WatcherLeft = !r.watcherGone()
+		if r.stopped() {
+			return o
+		}
+	}
 	r.call("Size", func() { o.Size = r.p.Size() })
 	return o
+}
+
+// watcherGone: the pool is done, so its goroutine must be gone by now.
+func (r *runner) watcherGone() bool {
+	d, rec := patience.deadline()
+	if goroutinesBack(r.base, d) {
+		return true
+	}
+	if patience.failed(rec) {
+		r.leakSeen = true
+	} else {
+		r.dropped = true
+	}
+	return false
 }
 
 func newRunner(in c20Input, later ...[]c20Op) (*runner, c20Obs) {
@@ -481,7 +597,7 @@ func newRunner(in c20Input, later ...[]c20Op) (*runner, c20Obs) {
 		}
 	}
 	patience.begin()
-	r := &runner{cs: newCtxSet(), ex: &expect{ended: map[int]bool{}}, doneBy: "none", base: runtime.NumGoroutine()}
+	r := &runner{cs: newCtxSet(), ex: &expect{ended: map[int]bool{}}, doneBy: "none", base: poolGoroutines()}
 	for _, id := range in.Pre {
 		r.cs.end(id)
 		r.ex.ended[id] = true
@@ -584,10 +700,15 @@ func (r *runner) finish() (final, leak bool) {
 	if r.dropped {
 		return false, true
 	}
-	d, rec := patience.deadline()
-	leak = !goroutinesBack(r.base, d)
-	if leak && !patience.failed(rec) {
-		r.dropped = true
+	leak = r.leakSeen
+	if final && !r.watcherGone() {
+		leak = true
+	}
+	if !final {
+		leak = true
+	}
+	if r.dropped {
+		return false, true
 	}
 	return final, leak
 }
@@ -645,6 +766,7 @@ func (r *runner) decorate(t *tally, c *hx.Case, kind string) bool {
 }
 
 func runScript(t *tally, in c20Input) {
+	checkNever(in, nil)
 	r, obs0 := newRunner(in)
 	obs := r.steps(in.Ops, true)
 	final, leak := r.finish()
@@ -726,6 +848,7 @@ func runNested(t *tally, in c20Input) {
 	if anyFast(in.Ops) || anyFast(in.Ops2) {
 		panic("c20: fast operations are for plain scripts")
 	}
+	checkNever(in, nops)
 	wait := time.Duration(in.WaitMs) * time.Millisecond
 	if wait <= 0 {
 		wait = 50 * time.Millisecond
@@ -913,7 +1036,7 @@ type raceOutcome struct {
 }
 
 func raceOnce(k, adders int, delays []int) raceOutcome {
-	base := runtime.NumGoroutine()
+	base := poolGoroutines()
 	mctx := make([]context.Context, k)
 	mcancel := make([]context.CancelFunc, k)
 	for i := range mctx {
@@ -1066,6 +1189,181 @@ func runRace(ctx *core.Ctx, in c20Input) {
 	}
 }
 
+// ---------------------------------------------------------------------------------------
+// cancelrace: overlapping Cancel() calls (the second one must not take a path that panics, returns
+// with a pool that still counts members, or leaves the watcher behind), racing Adds and a Size
+// reader. Whatever the interleaving: nothing panics, every call returns, and once they all have
+// Size() is 0, the pool's context is done and its goroutine gone although members live on.
+
+type cancelRaceOutcome struct {
+	panicked, returned bool
+	sizeDuring         bool // a Size() that started after some Cancel() had returned saw 0
+	done, gone         bool
+	size               int
+	done0              bool // after creation
+	size0              int
+	dropped            bool
+}
+
+func cancelRaceOnce(in c20Input, delays []int) cancelRaceOutcome {
+	base := poolGoroutines()
+	cs := newCtxSet()
+	mctx := make([]context.Context, in.K)
+	for i := range mctx {
+		id := i
+		if in.Never && i == 0 {
+			id = neverBase
+		}
+		mctx[i] = cs.get(id)
+	}
+	p := kitctx.NewPool(mctx...)
+	done0 := settleNotDone(p, 4)
+	size0 := p.Size()
+	var start, cancelReturned, panicked atomic.Bool
+	var ready atomic.Int32 // goroutines spinning on start: released together once all of them run
+	sizeOK := atomic.Bool{}
+	sizeOK.Store(true)
+	var wg sync.WaitGroup
+	run := func(d int, f func()) {
+		wg.Add(1)
+		go func() {
+			defer wg.Done()
+			defer func() {
+				if recover() != nil {
+					panicked.Store(true)
+				}
+			}()
+			ready.Add(1)
+			for !start.Load() {
+			}
+			spin(d)
+			f()
+		}()
+	}
+	k := 0
+	for i := 0; i < in.Cancels; i++ {
+		run(delays[k], func() { p.Cancel(); cancelReturned.Store(true) })
+		k++
+	}
+	for i := 0; i < in.Adders; i++ {
+		c := cs.get(10 + i)
+		run(delays[k], func() { p.Add(c) })
+		k++
+	}
+	run(delays[k], func() {
+		for j := 0; j < 4; j++ {
+			after := cancelReturned.Load() // read BEFORE the call: the call started after a Cancel returned
+			if n := p.Size(); after && n != 0 {
+				sizeOK.Store(false)
+			}
+		}
+	})
+	for i := 0; int(ready.Load()) < k+1 && i < 1<<20; i++ {
+		runtime.Gosched()
+	}
+	start.Store(true)
+	o := cancelRaceOutcome{sizeDuring: true, done0: done0, size0: size0}
+	d, rec := patience.callDeadline()
+	if !returnsOK(wg.Wait, d) {
+		o.dropped = !patience.failed(rec)
+		cs.endAll()
+		return o
+	}
+	o.returned, o.panicked, o.sizeDuring = true, panicked.Load(), sizeOK.Load()
+	d, rec = patience.deadline()
+	o.done = waitDone(p, d)
+	if !o.done {
+		o.dropped = !patience.failed(rec)
+	} else {
+		d, rec = patience.deadline()
+		o.gone = goroutinesBack(base, d) // the members are still live
+		if !o.gone {
+			o.dropped = !patience.failed(rec)
+		}
+	}
+	o.size = p.Size()
+	cs.endAll()
+	return o
+}
+
+func runCancelRace(ctx *core.Ctx, in c20Input) {
+	if in.K < 1 || in.K > 3 || in.Cancels < 1 || in.Cancels > 3 || in.Adders < 0 || in.Adders > 2 || in.Reps < 1 {
+		panic("c20: cancelrace parameters out of range")
+	}
+	r := hx.NewRand(uint64(in.Seed))
+	type agg struct {
+		o cancelRaceOutcome
+		n int
+	}
+	classes := map[string]*agg{}
+	var order []string
+	for rep := 0; rep < in.Reps; rep++ {
+		delays := make([]int, in.Cancels+in.Adders+1)
+		for i := range delays {
+			delays[i] = r.Intn(in.Spin + 1)
+		}
+		patience.begin()
+		o := cancelRaceOnce(in, delays)
+		if o.dropped {
+			ctx.Sink.Count("cancelrace/dropped(liveness_wait_failed_under_short_deadline_after_3_recorded_failures)")
+			break
+		}
+		ctx.Sink.Count("cancelrace/runs")
+		key := fmt.Sprintf("panic=%v/ret=%v/sizeduring=%v/done=%v/gone=%v/size=%d/at_creation=%v,%d", o.panicked, o.returned,
+			o.sizeDuring, o.done, o.gone, o.size, o.done0, o.size0)
+		if a, ok := classes[key]; ok {
+			a.n++
+		} else {
+			classes[key] = &agg{o: o, n: 1}
+			order = append(order, key)
+		}
+		if patience.caseFailed {
+			patience.confirm()
+			ctx.Sink.Count("cancelrace/liveness_failure_recorded")
+			break
+		}
+	}
+	sort.Strings(order)
+	// the case: the script "the Adds, then the Cancels" with only the last step looked at (every
+	// order of these calls gives the same last observation in the model and in the spec)
+	var init []int
+	for i := 0; i < in.K; i++ {
+		if in.Never && i == 0 {
+			init = append(init, neverBase)
+		} else {
+			init = append(init, i)
+		}
+	}
+	var ops []c20Op
+	for i := 0; i < in.Adders; i++ {
+		ops = append(ops, c20Op{Op: "add", M: 10 + i})
+	}
+	for i := 0; i < in.Cancels; i++ {
+		ops = append(ops, c20Op{Op: "cancel"})
+	}
+	for _, key := range order {
+		a := classes[key]
+		obs := make([]c20Obs, len(ops))
+		for i := range obs {
+			obs[i].Skipped = true
+		}
+		obs[len(obs)-1] = c20Obs{Done: a.o.done, Size: a.o.size}
+		c := hx.Case{Kind: "cancelrace", Input: hx.MustJSON(in), Facts: map[string]any{}}
+		c.Class = fmt.Sprintf("cancelrace/k%d/never=%v/c%d/a%d/%s", in.K, in.Never, in.Cancels, in.Adders, key)
+		c.Observed = map[string]any{"a_call_panicked": a.o.panicked, "all_calls_returned": a.o.returned,
+			"size_0_in_calls_started_after_a_cancel_returned": a.o.sizeDuring, "done": a.o.done, "size": a.o.size,
+			"goroutine_gone_while_members_live": a.o.gone, "runs_with_this_outcome": a.n}
+		if a.o.panicked || !a.o.returned || !a.o.sizeDuring {
+			c.Direct = 2
+			c.Note = "concurrent Cancel/Add/Size: a call panicked, did not return, or Size() was not 0 in a call started after a Cancel() had returned"
+		}
+		c.Coq = fmt.Sprintf("CPScript [] %s %s %s %s %s %s", hx.CoqInts(init), opsCoq(ops),
+			c20Obs{Done: a.o.done0, Size: a.o.size0}.coq(), pobsCoq(obs), hx.CoqBool(a.o.done), hx.CoqBool(!a.o.gone))
+		ctx.Sink.Count("kind=cancelrace")
+		ctx.Sink.Add(c)
+	}
+}
+
 func c20Run(ctx *core.Ctx, in c20Input) {
 	switch in.Kind {
 	case "script":
@@ -1074,6 +1372,8 @@ func c20Run(ctx *core.Ctx, in c20Input) {
 		runRace(ctx, in)
 	case "nested":
 		runConfirmed(ctx, in, runNested)
+	case "cancelrace":
+		runCancelRace(ctx, in)
 	default:
 		panic("c20: bad kind " + in.Kind)
 	}
@@ -1326,6 +1626,101 @@ func bitsSet(x int) int {
 	return n
 }
 
+// Overlapping Cancels (with racing Adds and a Size reader) on pools whose members live on.
+func genCancelRace(ctx *core.Ctx) {
+	r := ctx.R
+	reps := 60
+	if ctx.Thorough {
+		reps = 2000
+	}
+	for k := 1; k <= 3; k++ {
+		for cancels := 1; cancels <= 3; cancels++ {
+			for adders := 0; adders <= 2; adders++ {
+				if !ctx.Thorough && (k+cancels+adders)%2 == 1 && cancels != 2 { // half of the grid, all of cancels=2
+					continue
+				}
+				spinMax := []int{0, 200, 2000}[r.Intn(3)]
+				c20Run(ctx, c20Input{Kind: "cancelrace", K: k, Never: r.Bool(), Cancels: cancels, Adders: adders,
+					Reps: reps, Spin: spinMax, Seed: int64(r.U64() >> 1)})
+			}
+		}
+	}
+}
+
+// Cancel on pools whose members live on - cancellable contexts that are still live, and contexts
+// that never end at all (context.Background(), context.TODO(), a value context: Done() == nil) -
+// at every position of the initial list, mixed with already-ended ones. Every look that sees the
+// pool done also asks that its goroutine is gone (observe), which is the point of these scripts:
+// the members are still there when the look is taken. Ids: 0..n-1 initial (kind by position), 4 a
+// live newcomer, 5 an ended one, neverBase+k never-ending ones.
+func genCancelLive(ctx *core.Ctx) {
+	r := ctx.R
+	s := func(op string, m int) c20Op { return c20Op{Op: op, M: m} }
+	f := func(op string, m int) c20Op { return c20Op{Op: op, M: m, Fast: true} }
+	for n := 1; n <= 3; n++ {
+		total := 1
+		for i := 0; i < n; i++ {
+			total *= 3
+		}
+		for code := 0; code < total; code++ {
+			in := c20Input{Kind: "script", Pre: []int{5}}
+			var live []int
+			nNever := 0
+			for i, c := 0, code; i < n; i, c = i+1, c/3 {
+				switch c % 3 {
+				case 0: // live, cancellable
+					in.Init = append(in.Init, i)
+					live = append(live, i)
+				case 1: // never ends
+					in.Init = append(in.Init, neverBase+i)
+					nNever++
+				case 2: // already ended
+					in.Init = append(in.Init, i)
+					in.Pre = append(in.Pre, i)
+				}
+			}
+			if len(live)+nNever == 0 {
+				continue // nothing lives on: the plain families cover it
+			}
+			seqs := [][]c20Op{
+				{s("cancel", 0), s("size", 0), s("add", 4), s("size", 0)},
+				{s("add", neverBase+7), s("cancel", 0), s("size", 0)},
+				{s("add", 4), s("add", neverBase+8), s("end", 4), s("cancel", 0), s("cancel", 0), s("size", 0)},
+				{f("cancel", 0), f("cancel", 0), s("size", 0)},
+				{f("add", neverBase+6), f("cancel", 0), s("add", 4), s("size", 0)},
+			}
+			if len(live) > 0 { // the watcher has moved on (or not: the ended member is the last live one) before Cancel
+				seqs = append(seqs,
+					[]c20Op{s("end", live[0]), s("cancel", 0), s("size", 0)},
+					[]c20Op{s("end", live[len(live)-1]), s("add", neverBase+6), s("cancel", 0), s("size", 0)})
+			}
+			for _, ops := range seqs {
+				if !ctx.Thorough && n == 3 && !r.Chance(1, 2) {
+					continue
+				}
+				c := in
+				c.Ops = ops
+				c20Run(ctx, c)
+			}
+			// the nested seam on such pools: Cancel() / Size() inside the Done() method of an offered
+			// context; the offered context itself may be a never-ending one
+			if n <= 2 || ctx.Thorough {
+				for _, m := range []int{4, neverBase + 9} {
+					for _, nested := range []string{"cancel", "size"} {
+						c := in
+						c.Kind, c.M, c.Nested, c.WaitMs = "nested", m, nested, 30
+						c.Ops2 = []c20Op{s("size", 0), s("cancel", 0), s("size", 0), s("add", 8), s("size", 0)}
+						if !ctx.Thorough && !r.Chance(1, 2) {
+							continue
+						}
+						c20Run(ctx, c)
+					}
+				}
+			}
+		}
+	}
+}
+
 func genNested(ctx *core.Ctx) {
 	r := ctx.R
 	waitMs := 40
@@ -1420,8 +1815,10 @@ func c20Gen(ctx *core.Ctx) {
 		runRace(ctx, c20Input{Kind: "race", K: k, Adders: adders, Reps: reps, Spin: spinMax, Seed: int64(r.U64() >> 1)})
 	}
 
+	genCancelRace(ctx)
 	genNested(ctx)
 	genFast(ctx)
+	genCancelLive(ctx)
 
 	// --- structured families: pools of 0..4 initial contexts x which of them had already ended
 	// x every order of the member cancellations x one extra operation at every position.
